@@ -3,6 +3,7 @@ import PdshVerif.Exec.Format
 import PdshVerif.Exec.EndToEnd
 import PdshVerif.Exec.Ssh
 import PdshVerif.Exec.Spec
+import PdshVerif.Exec.XrcmdSpec
 import PdshVerif.Opt.Rcmd
 import PdshVerif.Opt.RcmdSpec
 import PdshVerif.Gen.Modopt
@@ -21,7 +22,10 @@ import Driver.Util
      reg  loaded=L env=S|~ R=S|~ l=S|~ luser=S T=L W=TEXT/L/L ...   (S hex, L = hex+hex+..., W = word
           text / first-level names / final names; RCMD_RANK_LIST comes from Gen)
                                          -> fatal | ok TYPE|HOST|USER|RANK ...   (TYPE `~` = no module)
-  `pdshmodel rcmd spec`  the same lines answered by the specification
+     xr ERRCH LUSER RUSER CMD BUSY CONNS SLEEPS POLL ACC REPLY  (xrcmd's connection set-up in a scripted
+          world, see harness/xrcmd_harness.c)  -> ok|fail EVENT*
+  `pdshmodel rcmd spec`  the same lines answered by the specification; additionally
+     xrobs ERRCH LUSER RUSER CMD ok|fail EVENT*   -> ok | viol   (Exec/XrcmdSpec.lean `meets`)
 -/
 namespace Driver.RcmdDrv
 open PdshVerif PdshVerif.Exec
@@ -120,6 +124,86 @@ def regSpec (toks : List String) : String :=
     else if ls.any (·.rtype.isNone) then "nodomain"
     else showLines ls
 
+/-! xrcmd's connection set-up (Exec/Xrcmd.lean) with a scripted world, same protocol as harness/xrcmd_harness.c -/
+section xr
+open PdshVerif.Exec.Xrcmd
+
+def showConn : Conn → String
+  | .ok => "o" | .addrInUse => "a" | .refused => "r" | .other => "x"
+
+def showEv : Ev → String
+  | .bind p => s!"b{p}"
+  | .connect p r => s!"c{p}:" ++ showConn r
+  | .close p => s!"x{p}"
+  | .sleep n => s!"s{n}"
+  | .listen p => s!"l{p}"
+  | .write bs => "w" ++ hx bs
+  | .accept src => s!"a{src}"
+  | .closeErr => "X"
+
+/-- the scripted privsep_rresvport of the harness: the first port from `start` downwards, not below
+    IPPORT_RESERVED/2, that is not in the busy list -/
+def resvOf (busy : List Nat) (start : Nat) : Option Nat :=
+  if start ≥ 2048 then none
+  else ((List.range (start + 1 - IPPORT_RESERVED / 2)).map (start - ·)).find? (fun p => !busy.contains p)
+
+def parseConns (s : String) : Option (List Conn) :=
+  if s = "-" then some []
+  else s.toList.mapM fun c =>
+    if c = 'o' then some Conn.ok else if c = 'a' then some .addrInUse else if c = 'r' then some .refused
+    else if c = 'x' then some .other else none
+
+def parseNats (s : String) : Option (List Nat) :=
+  if s = "-" then some [] else (s.splitOn ",").mapM String.toNat?
+
+def parseEv (t : String) : Option Ev :=
+  let rest := (t.drop 1).toString
+  match t.toList.head? with
+  | some 'b' => rest.toNat?.map .bind
+  | some 'c' =>
+    match rest.splitOn ":" with
+    | [p, r] => do
+      let p ← p.toNat?
+      let r ← (if r = "o" then some Conn.ok else if r = "a" then some .addrInUse else if r = "r" then some .refused
+               else if r = "x" then some .other else none)
+      pure (.connect p r)
+    | _ => none
+  | some 'x' => rest.toNat?.map .close
+  | some 's' => rest.toNat?.map .sleep
+  | some 'l' => rest.toNat?.map .listen
+  | some 'w' => (Hex.decodeToChars rest).map .write
+  | some 'a' => rest.toNat?.map .accept
+  | some 'X' => if rest = "" then some .closeErr else none
+  | _ => none
+
+/-- xr ERRCH LUSER RUSER CMD BUSY CONNS SLEEPS POLL ACC REPLY -/
+def xrModel : List String → String
+  | [e, l, r, c, busy, conns, sl, po, acc, reply] =>
+    match Hex.decodeToChars l, Hex.decodeToChars r, Hex.decodeToChars c, parseNats busy, parseConns conns with
+    | some l, some r, some c, some busy, some conns =>
+      let acc : Option (Option Nat) := if acc = "~" then some none else acc.toNat?.map some
+      let reply : Option (Option (List Char)) := if reply = "~" then some none else (Hex.decodeToChars reply).map some
+      match acc, reply with
+      | some acc, some reply =>
+        -- a script that runs out answers EHOSTUNREACH, like the harness
+        let w : World := ⟨resvOf busy, conns ++ [.other], sl = "1", po = "1", acc, reply⟩
+        let res := xrcmd w (e = "1") l r c
+        " ".intercalate ((if res.ok then "ok" else "fail") :: (mergeWrites res.evs).map showEv)
+      | _, _ => "bad-op"
+    | _, _, _, _, _ => "bad-op"
+  | _ => "bad-op"
+
+/-- xrobs ERRCH LUSER RUSER CMD ok|fail EVENT* : the observation judged by Exec/XrcmdSpec.lean -/
+def xrSpec : List String → String
+  | e :: l :: r :: c :: res :: evs =>
+    match Hex.decodeToChars l, Hex.decodeToChars r, Hex.decodeToChars c,
+          (evs.filter (fun t => !t.startsWith "leak")).mapM parseEv with
+    | some l, some r, some c, some evs =>
+      if Spec.meets (e = "1") l r c (res = "ok") evs then "ok" else "viol"
+    | _, _, _, _ => "bad-op"
+  | _ => "bad-op"
+end xr
+
 def stepModel (v : Variant) (re : Bool) (sshEsc : Bool) (line : String) : String :=
   match Driver.words line with
   | ["fmt", h, u, r, m] =>
@@ -172,6 +256,7 @@ def stepModel (v : Variant) (re : Bool) (sshEsc : Bool) (line : String) : String
       | none => "ub"
     | _, _, _, _, _, _, _, _, _ => "bad-op"
   | "reg" :: rest => regModel re rest
+  | "xr" :: rest => xrModel rest
   | _ => "bad-op"
 
 def stepSpec (line : String) : String :=
@@ -196,6 +281,7 @@ def stepSpec (line : String) : String :=
       | none => "malformed"
     | none => "bad-op"
   | "reg" :: rest => regSpec rest
+  | "xrobs" :: rest => xrSpec rest
   | _ => "bad-op"
 
 def main (args : List String) : IO UInt32 := do
